@@ -250,6 +250,9 @@ func (r *Report) writeEvidence(wall float64, nViol int) {
 		if !fr.fx.safetyChecks {
 			safetyOff++
 		}
+		if fr.fx.preAssumed {
+			notes = append(notes, fr.fx.name+": preconditions of its callees assumed, not checked (opt pre assume; only the frame of this function is claimed)")
+		}
 	}
 	var samples []interface{}
 	step := 1
